@@ -27,6 +27,7 @@ def run(R):
     common.escape_rule(R, ro, "C08.ESCAPE", ("step", "provider", "flush"), "so the scheduler keeps running")
     from .c02 import capture_guard
     capture_guard(R, ro, "C08.CAPTURE-GUARD")
+    active_own(R, ro)
     stack_effect(R, ro)
     reset_rules(R, ro)
     getters(R, ro)
@@ -157,3 +158,24 @@ def getters(R, ro):
         R.check(ok, "C08.GETTER", f.qualname, R.site(f),
                 "%s() reads %s.current%s" % (fn, hname, "." + attr if attr else ""),
                 "%s() no longer reads the per-thread scheduler state" % fn)
+
+
+def active_own(R, ro):
+    """self.active_task is written only by the continue-task method (save/set/restore) and by
+    reset(): any other writer changes what get_active_task() reports while a task's code runs."""
+    ct = ro.continue_task_method()
+    allowed = set([ct.qualname, "scheduler.TaskScheduler.reset", "scheduler.TaskScheduler.__init__"])
+    n = 0
+    for f in R.repo.all_functions():
+        for recv, attr, node in q.attr_stores(f.node):
+            if attr != "active_task":
+                continue
+            rc = R.res.expr_class(f, node.value) if recv != "self" else ({f.cls} if f.cls is not None else None)
+            if rc is not None and not any(c is not None and c.is_subclass_of(ro.TS) for c in rc):
+                continue
+            n += 1
+            R.check(f.qualname in allowed, "C08.ACTIVE-OWN", "%s:%s" % (f.qualname, q.stmt_key(q.enclosing_stmt(node))), R.site(f, node),
+                    "%s writes the scheduler's active_task (the save/set/restore pair or reset)" % f.name,
+                    "%s overwrites the scheduler's active_task outside the save/set/restore pair of the continue-task method: the task whose code is running "
+                    "(e.g. one that made a nested synchronous call) is no longer reported by get_active_task(), and contexts it enters are not registered" % f.qualname)
+    R.need(n >= 3, "fewer writers of active_task than confirmed by hand (%d < 3)" % n)
